@@ -145,6 +145,37 @@ def gen_tables():
     return rc == 0, out
 
 
+def changed_table_chars():
+    """characters whose entry in the regenerated tables differs from the committed reference copy (git HEAD of /verif):
+    where the tables moved is where the search for a failing input should look first"""
+    import re
+    out = []
+    for name, pat in (("AsciiTable.lean", r"\{ ch := '((?:\\.|[^'\\])+)',"), ("UnicodeTable.lean", r"^  \('((?:\\.|[^'\\])+)',")):
+        path = os.path.join(LEAN, "Svgbob", "Gen", name)
+        try:
+            cur = open(path, encoding="utf-8").read()
+        except OSError:
+            continue
+        rc, ref = sh(["git", "-C", VERIF, "show", "HEAD:lean/Svgbob/Gen/" + name], timeout=60)
+        if rc != 0:
+            continue
+
+        def entries(src):
+            d = {}
+            ms = list(re.finditer(pat, src, re.M))
+            for i, m in enumerate(ms):
+                end = ms[i + 1].start() if i + 1 < len(ms) else len(src)
+                d[m.group(1)] = d.get(m.group(1), "") + src[m.start():end]
+            return d
+        a, b = entries(cur), entries(ref)
+        for k in list(a) + [k for k in b if k not in a]:
+            if a.get(k) != b.get(k):
+                ch = {"\\\\": "\\", "\\'": "'"}.get(k, k)
+                if len(ch) == 1 and ch not in out:
+                    out.append(ch)
+    return out
+
+
 def lake_build(targets):
     with Lock("lake.lock"):
         rc, out = sh(["lake", "build"] + list(targets), cwd=LEAN, timeout=3600)
